@@ -89,7 +89,7 @@ def evict(prefix, suffix, keep=10, max_age_s=5400):
 
 def cxx_build(extra='', tag='plain', cxx=None):
     """always rebuilt from /repo's current working tree (cached by content hash of headers + harness)"""
-    key = tree_hash([os.path.join(REPO, 'include'), os.path.join(VERIF, 'harness', 'cxx')], ('.hpp', '.cpp', '.sh', '.h')) + '-' + tag
+    key = tree_hash([os.path.join(REPO, 'include'), os.path.join(VERIF, 'harness', 'cxx')], ('.hpp', '.cpp', '.sh', '.h'))[:12] + hashlib.sha256((extra + '|' + (cxx or '')).encode()).hexdigest()[:4] + '-' + tag
     out = os.path.join(BUILD, 'cxx-' + key)
     exe = os.path.join(out, 'cxx_driver')
     if os.path.exists(exe):
